@@ -7,6 +7,7 @@ import (
 	"time"
 
 	"github.com/ory/fosite"
+	"github.com/ory/fosite/compose"
 	"github.com/ory/fosite/zz_verif_h/world"
 	"github.com/ory/fosite/zz_verif_h/zz"
 )
@@ -269,4 +270,110 @@ func ZZ_C04_rotation_jwt() {
 		s.freeOp()
 		s.sweep("after free op")
 	}
+}
+
+// ZZ_C04_secret_rotation: the signing secret is rotated while a grant lives: R1 is issued under secret S1,
+// the server moves to S2 (S1 kept as a rotated secret), R1 is exchanged for R2 (signed under S2), S1 is then
+// retired (or not), and the used R1 is presented again. The replay is recognised whatever secret the replayed
+// token was signed under: every token of the grant is inactive afterwards, the other grant is untouched.
+func ZZ_C04_secret_rotation() {
+	s1 := []byte("0123456789abcdef0123456789abcdef-global")
+	s2 := []byte("another-global-secret-of-sufficient-length-S2")
+	w := world.New(world.Options{})
+	r0, err := w.Password("c1", []string{"offline", "photos"})
+	zz.Assume(err == nil)
+	other, err := w.Password("c2", []string{"offline", "mail"})
+	zz.Assume(err == nil)
+	a1, r1 := r0.GetAccessToken(), world.RefreshTokenOf(r0)
+	zz.Assume(r1 != "")
+	early := zz.Choice("exchange-before-rotation", 2) == 1
+	var a2, r2 string
+	exchange := func() {
+		resp, err := w.Refresh("c1", r1)
+		zz.Assert(err == nil, "secret rotation: a live refresh token signed under the current or a rotated secret is exchanged")
+		if err != nil {
+			return
+		}
+		a2, r2 = resp.GetAccessToken(), world.RefreshTokenOf(resp)
+	}
+	if early {
+		exchange()
+	}
+	w.Cfg.GlobalSecret, w.Cfg.RotatedGlobalSecrets = s2, [][]byte{s1}
+	if !early {
+		exchange()
+	}
+	zz.Assume(r2 != "")
+	var a3, r3 string
+	if zz.Choice("second-exchange", 2) == 1 {
+		resp, err := w.Refresh("c1", r2)
+		zz.Assert(err == nil, "secret rotation: the newest refresh token is exchanged")
+		if err != nil {
+			return
+		}
+		a3, r3 = resp.GetAccessToken(), world.RefreshTokenOf(resp)
+		zz.Cover("secret-rotation:three-generations", true)
+	}
+	retired := zz.Choice("retire", 2) == 1
+	if retired {
+		w.Cfg.RotatedGlobalSecrets = nil
+	}
+	zz.Advance(time.Duration(zz.Int("advance", 0, int64(10*time.Minute))))
+	// the used R1 comes back
+	_, err = w.Refresh("c1", r1)
+	zz.Observe("replay.err", world.ErrName(err))
+	zz.Assert(err != nil, "secret rotation: the used refresh token is refused")
+	for _, t := range []struct {
+		val string
+		use fosite.TokenUse
+	}{{a1, fosite.AccessToken}, {r1, fosite.RefreshToken}, {a2, fosite.AccessToken}, {r2, fosite.RefreshToken}, {a3, fosite.AccessToken}, {r3, fosite.RefreshToken}} {
+		if t.val == "" {
+			continue
+		}
+		active, _ := w.Introspect(t.val, t.use)
+		zz.Assert(!active, "secret rotation: after the replay of a used refresh token every token of the grant is inactive")
+	}
+	newest := r2
+	if r3 != "" {
+		newest = r3
+	}
+	_, err = w.Refresh("c1", newest)
+	zz.Assert(err != nil, "secret rotation: after the replay the newest refresh token is not exchanged any more")
+	// the other grant (signed under S1) lives as long as S1 is known
+	oa, _ := w.Introspect(other.GetAccessToken(), fosite.AccessToken)
+	or, _ := w.Introspect(world.RefreshTokenOf(other), fosite.RefreshToken)
+	if !retired {
+		zz.Assert(oa && or, "secret rotation: tokens of other grants are unaffected by the replay")
+	}
+	zz.Cover("secret-rotation:replay-after-retirement", retired)
+	zz.Cover("secret-rotation:replay-under-rotated-secret", !retired)
+}
+
+// ZZ_C04_par_twice: two authorizations attempted from ONE pushed request. Either the second is refused (then
+// there is one grant), or there are two grants - and then they are two grants for rotation as well: exchanging
+// the first one's refresh token leaves the second one's tokens alone, and the exchanged token is inactive.
+func ZZ_C04_par_twice() {
+	w := world.New(world.Options{Extra: []compose.Factory{compose.PushedAuthorizeHandlerFactory}})
+	g1, g2, ok1, ok2 := w.TwoGrantsFromOnePush("c1", world.Secret1)
+	zz.Assume(ok1)
+	if !ok2 {
+		zz.Cover("par-twice:second-use-refused", true)
+		return
+	}
+	zz.Cover("par-twice:two-grants", true)
+	r1, r2 := world.RefreshTokenOf(g1), world.RefreshTokenOf(g2)
+	zz.Assume(r1 != "" && r2 != "")
+	resp, err := w.Refresh("c1", r1)
+	zz.Assert(err == nil, "par twice: a live refresh token is exchanged")
+	if err != nil {
+		return
+	}
+	act, _ := w.Introspect(r1, fosite.RefreshToken)
+	zz.Assert(!act, "par twice: the exchanged refresh token is inactive")
+	a2, _ := w.Introspect(g2.GetAccessToken(), fosite.AccessToken)
+	rr2, _ := w.Introspect(r2, fosite.RefreshToken)
+	zz.Assert(a2 && rr2, "par twice: tokens of the other grant are unaffected by the exchange")
+	_, err = w.Refresh("c1", r1)
+	zz.Assert(err != nil, "par twice: the exchanged refresh token is exchanged at most once")
+	_ = resp
 }
